@@ -200,22 +200,26 @@ def writeControl (c : Control) (token : Token) (ack : Nat) (cap : Nat) : WriteRe
     else .panic "ControlPacket::write: result.len() <= MAX_PACKETSIZE"
   | r => r
 
+/-- the compression decision of `write_impl`: `some s` = the compressed form `s` is sent (it fitted
+into the 2048-byte buffer and is strictly shorter than `p`), `none` = `p` is sent as it is -/
+def chooseCompression (t : Huffman.Table) (p : List UInt8) : Option (List UInt8) :=
+  match Huffman.compressInto t false p COMPRESSION_BUFFER_CAP with
+  | some s => if s.length < p.length then some s else none
+  | none => none
+
 /-- the `Chunks` arm of `ConnectedPacket::write_impl` -/
 def writeChunks (t : Huffman.Table) (ack : Nat) (token : Token) (requestResend : Bool)
     (numChunks : Nat) (payload : List UInt8) (cap : Nat) : WriteResult :=
-  let comp := Huffman.compressInto t false payload COMPRESSION_BUFFER_CAP
-  let useComp := match comp with
-    | some s => decide (s.length < payload.length)
-    | none => false
+  let comp := chooseCompression t payload
   let flags := (if requestResend then PACKETFLAG_REQUEST_RESEND else 0)
-               ||| (if useComp then PACKETFLAG_COMPRESSION else 0)
+               ||| (if comp.isSome then PACKETFLAG_COMPRESSION else 0)
   match PacketHeader.pack { flags := flags, ack := ack, numChunks := numChunks, token := token } with
   | none => .panic "PacketHeader::pack"
   | some hdr =>
   match bufWrite cap [] (hdrBytes hdr token) with
   | none => .capacity
   | some b1 =>
-  match bufWrite cap b1 (if useComp then comp.getD [] else payload) with
+  match bufWrite cap b1 (comp.getD payload) with
   | none => .capacity
   | some b2 => .ok b2
 
